@@ -177,7 +177,7 @@ func baseFingerprint(c *Case, f Finding) string {
 
 func describe(c *Case, h *hit, f Finding) string {
 	s := f.What + fmt.Sprintf(" | input: %s [%s, %s %s, %s ending, delivery %s, body %d bytes", c.Label, c.Alphabet, c.Side, c.Mode, c.ending(), c.Delivery, len(c.Body()))
-	if len(c.BodyHex) <= 80 {
+	if c.Synth == nil && len(c.BodyHex) <= 80 {
 		s += " = " + c.BodyHex
 	}
 	s += "]"
@@ -240,6 +240,10 @@ func main() {
 		os.Exit(2)
 	}
 	if err := faithful(sp.recs); err != nil {
+		fmt.Fprintln(os.Stderr, "INCONCLUSIVE:", err)
+		os.Exit(2)
+	}
+	if err := genuineLarge(rep.Tier); err != nil {
 		fmt.Fprintln(os.Stderr, "INCONCLUSIVE:", err)
 		os.Exit(2)
 	}
@@ -358,19 +362,22 @@ func main() {
 	if os.Getenv("VERIF_C07_TIMING") != "" {
 		fmt.Fprintf(os.Stderr, "timing: workers %v, total %v\n", tWorkers, time.Since(t0))
 	}
-	fmt.Printf("C07 %s: %d cases (%d A1 over %d hostile bodies, %d A2 over %d recorded bodies / %d cut points), %d workers, %d worker starts, %d violating cases, %d fingerprints\n",
-		rep.Tier, total, sp.nA1, sp.hostile.len(), sp.nA2, len(sp.recs), recBytes, W, spawns, len(hits), len(perFP))
+	fmt.Printf("C07 %s: %d cases (%d A1 over %d hostile bodies, %d A2 over %d recorded bodies / %d cut points, %d A2-large over %d bodies / %d cut points), %d workers, %d worker starts, %d violating cases, %d fingerprints\n",
+		rep.Tier, total, sp.nA1, sp.hostile.len(), sp.nA2, len(sp.recs), recBytes, sp.nLarge, len(largeSizes(rep.Tier)), len(sp.large), W, spawns, len(hits), len(perFP))
 	os.Exit(rep.Finish("fault_enumeration", map[string]interface{}{
 		"evaluations":         total,
 		"distinct_nontrivial": len(distinct),
 		"rule": "A1: every sequence of <=3 frames over the frame alphabet (12 prefixes x payload lengths {0,n-1,n,n+1} (n<=5) or {0,7} (huge) x valid/invalid payloads) plus every byte string of length <=5 over {00,01,7F,80,FF}, each fed to client stream (server-streaming and single-response) and server stream (client-streaming and single-request); " +
-			"A2: every byte offset of every distinct recorded genuine body, clean and abrupt ending. thorough adds abrupt endings for A1, three delivery patterns of the body reader, long messages and a second error outcome. " +
+			"A2: every byte offset of every distinct recorded genuine body, clean and abrupt ending; A2-large: genuine request and response bodies of 3-6 consecutive large frames (64 KiB, 64 KiB+1, 1 MiB, mixed; thorough also 4 MiB), every message filled with its own index, complete and cut just after the prefix / in the middle / one byte before the end of every frame but the first, clean and abrupt ending, every delivered message compared byte for byte. thorough adds abrupt endings for A1, three delivery patterns of the body reader, long messages and a second error outcome. " +
 			"A case is non-trivial when the reference decoder stops anywhere but at a complete trailer frame (client) / a clean end of a whole request (server), i.e. the decoder must validate a prefix, classify an EOF or detect a cut; distinct by (side, mode, ending, body bytes).",
 		"nontrivial_by_class":   byClass,
 		"frame_alphabet":        sp.nFrameSyms,
 		"hostile_bodies":        sp.hostile.len(),
 		"recorded_bodies":       recNames,
 		"cut_points":            recBytes,
+		"large_bodies":          largeSizes(rep.Tier),
+		"large_cut_points":      len(sp.large),
+		"large_cases":           sp.nLarge,
 		"violating_cases":       len(hits),
 		"cases_per_fingerprint": perFP,
 		"worker_starts":         spawns,
